@@ -1,8 +1,12 @@
 (** C05 — queries return exactly the entries the query describes.
-    Proved here: the range bounds every query path scans are exact (a row is inside the bounds
-    iff it has the namespace / author / key / key-prefix asked for), for all 32-byte ids and all
-    byte-string keys including 0xFF-edged ones. Statements only. *)
-From ID Require Import Model.Bounds Proofs.BoundsFacts.
+    Proved: the iterator model of a query ([run_query]: index selection, computed bounds, stale
+    index rows, direction, filters, latest-per-key, offset and limit) yields exactly the
+    declarative reading [query_spec] over the document's entries, for every well-formed table
+    state (records sorted; the by-key index lists every record and may list more) and every
+    query; that invariant holds after every history of inserts; and every range bound a query
+    path scans is exact for all 32-byte ids and all byte-string keys including 0xFF-edged ones.
+    Statements only. *)
+From ID Require Import Base.Bytes Model.Entry Model.Tables Model.Bounds Model.FsStore Model.Query Proofs.BoundsFacts Proofs.FsPutFacts Proofs.QueryFacts.
 
 Theorem C05_namespace_bounds_exact : forall ns n a k, n <= MAX256 ->
   in_bounds rid_cmp (fst (rb_namespace ns)) (snd (rb_namespace ns)) (n, a, k) = (n =? ns).
@@ -55,3 +59,21 @@ Print Assumptions C05_bykey_prefix_bounds_exact.
 Print Assumptions C05_bykey_exact_bounds_exact.
 Print Assumptions C05_bykey_namespace_bounds_exact.
 Print Assumptions C05_inc_carry_refuted.
+
+(** the iterator = the declarative reading, for every query *)
+Theorem C05_query_is_its_specification : forall EH ns T q, wf_records T -> wf_index T ->
+  run_query prefix_succ EH T ns q = query_spec EH (fs_all ns T) q.
+Proof. exact run_query_is_spec. Qed.
+
+(** ... in every state reachable by inserts (prefix deletions leave stale index rows behind) *)
+Theorem C05_queries_exact_after_any_inserts : forall EH ns l q, Forall wf_entry l ->
+  let T := fs_puts EH empty_tables l in
+  run_query prefix_succ EH T ns q = query_spec EH (fs_all ns T) q.
+Proof. exact queries_exact_after_puts. Qed.
+
+Check (eq_refl : wf_index = fun T =>
+  ksorted (t_bykey T) /\ Forall wf_krow (t_bykey T) /\
+  forall n a k v, In ((n, a, k), v) (t_records T) -> In ((n, k, a), tt) (t_bykey T)).
+
+Print Assumptions C05_query_is_its_specification.
+Print Assumptions C05_queries_exact_after_any_inserts.
